@@ -239,6 +239,22 @@ Section GetQuantizerThm.
     - inversion H; subst. exact GL.
     - destruct (fresh cfg ch slots _ _) as [[q0 b0]|]; [|inversion H].
       inversion H; subst. rewrite glookup_cons, String.eqb_refl, Z.eqb_refl. reflexivity. Qed.
+  (* class-keyed limits (no pattern matches the layer): the quantizer comes from the configuration of the
+     role's OWN field and obeys the role's own slot -- the per-role form of the limit statement *)
+  Theorem get_quantizer_class_limit_per_role g head ln cn il q b g' :
+    first_match rematch lims ln = None ->
+    getq g head ln cn il = (RSome q b, g') ->
+    exists slots lm, assoc cn lims = Some slots /\ slot slots (field_index (field_of_head il head)) = Some lm /\
+      from_field cfg (field_of_head il head) q b /\ obeys lm q b /\ g' = g.
+  Proof. intros F H. unfold get_quantizer in H. rewrite F in H.
+    destruct (assoc cn lims) as [slots|]; [|inversion H].
+    destruct (fresh cfg ch slots _ _) as [[q0 b0]|] eqn:FR; [|inversion H].
+    inversion H; subst. destruct (fresh_ok _ _ _ _ _ FR) as [lm [S [FF O]]].
+    exists slots, lm. repeat split; assumption. Qed.
+
+  (* role words are read from the END of the head when the layer name itself contains none of them *)
+  Lemma field_of_head_kernel n : contains "kernel" (n ++ "_kernel") = true.
+  Proof. induction n as [|a n IH]; [reflexivity|]. cbn [append contains]. rewrite IH. apply orb_true_r. Qed.
 End GetQuantizerThm.
 
 (* ======================= quantize_model: the selection part ======================= *)
